@@ -193,6 +193,24 @@ def check_re_ref(acc, spec, length=4):
 
 
 # ---------------------------------------------------------------- grammar exercises
+def grammar_text_lines(g):
+    """The same grammar, one alternative per line, the lines of different variables interleaved (first alternatives of
+    all variables, then second alternatives, ...; the start variable still owns the first line)."""
+    by = {}
+    order = []
+    for l, rhs in g[3]:
+        if l not in by:
+            by[l] = []
+            order.append(l)
+        by[l].append(''.join(rhs) or 'ε')
+    lines = []
+    for i in range(max(len(v) for v in by.values())):
+        for v in order:
+            if i < len(by[v]):
+                lines.append('{} -> {}'.format(v, by[v][i]))
+    return '\n'.join(lines)
+
+
 def grammar_text(g):
     by = {}
     order = []
